@@ -10,5 +10,9 @@ def run(ctx, out):
     dcheck.run_property(ctx, out, "C11", "mon_c11_all", n_quick=250, n_thorough=4000,
                         gen_kw=dict(ws_share=0.35, batches=0.05, malformed=0.06, victims=2, accept_faults=True, timers=True, faults=True),
                         directed=directed.regressions() + directed.accept_queue() + directed.faulty_caller())
+    # component level: the real dispatcher and the real accept loop against their Lean models
+    from vlib import accept_tie, evloop_tie
+    evloop_tie.run_evloop_tie(ctx, out)
+    accept_tie.run_accept_tie(ctx, out)
     out.assumptions += ["faulty peers in the differential family are subscribers/bystanders (their own requests would legitimately change the history); "
                         "a faulty OWNER is covered by the directed F30 scenarios and the C03 monitor"]
